@@ -859,6 +859,118 @@ def run_atadargs(ctx, model, case):
 
 
 # =============================================================================================
+# one MatrixATADSolver / ConvATADSolver INSTANCE solving a sequence of right-hand sides of varying ndim / width (seeded C14-p3):
+# every solve must be what a fresh solver returns and must solve the documented system, whatever was solved before
+
+
+def gen_atadseq(rng):
+    while True:
+        base = gen_atad(rng)
+        if base["n"] >= 2:
+            break
+    if rng.integers(0, 2) == 0 and not (base["m"] < base["n"] and base["ddiag"]):
+        # force the Woodbury path half of the time: wide A, 1-D D, non-zero weights
+        n = base["n"]
+        m = max(1, n - int(rng.integers(1, 3)))
+        base.update(m=m, ddiag=True, A=tolist(lu.rnd(rng, (m, n), base["cplx"], False, scale=1.0)),
+                    D=tolist((rng.integers(2, 9, size=n) / 2.0).astype(np.complex128 if base["cplx"] else np.float64)),
+                    W=None if rng.integers(0, 2) else [float(w) for w in rng.integers(1, 9, size=m) / 4.0])
+    n, cplx = base["n"], base["cplx"]
+    widths = [0, n, int(n + 1 + rng.integers(0, 2)), 0, 1]  # vector, N x N, N x K, vector again, N x 1
+    order = [int(i) for i in rng.permutation(len(widths))]
+    seq = [widths[i] for i in order][: int(rng.integers(2, 6))]
+    rhs = [tolist(lu.rnd(rng, (n,) if k == 0 else (n, k), cplx, False)) for k in seq]
+    return {"kind": "atadseq", "base": {k: base[k] for k in ("m", "n", "cplx", "A", "D", "ddiag", "W", "cho", "lower")}, "widths": seq, "rhs": rhs}
+
+
+def _impl_atadseq(case):
+    S = _setup()
+    jnp, solver = S["jnp"], S["solver"]
+    b0 = dict(case["base"], k=0, b=case["rhs"][0], xp=case["rhs"][0], kind="atad")
+    cplx = b0["cplx"]
+    dt = np.complex128 if cplx else np.float64
+    n = b0["n"]
+    A, D, W, _, _ = _atad_arrays(dict(b0, b=tolist(np.zeros(n, dtype=dt)), xp=tolist(np.zeros(n, dtype=dt))))
+    mk = lambda: solver.MatrixATADSolver(jnp.array(A, dtype=dt), jnp.array(D, dtype=dt), None if W is None else jnp.array(W, dtype=dt),  # noqa: E731
+                                         cho_factor=b0["cho"], lower=b0["lower"])
+    out = []
+    try:
+        s = mk()
+        for k, bl in zip(case["widths"], case["rhs"]):
+            b = _arr(bl, cplx, (n,) if k == 0 else (n, k))
+            bj = jnp.array(b, dtype=dt)
+            step = {"k": k, "b": b}
+            try:
+                x = s.solve(bj)
+                step.update(x=np.array(x), acc=float(s.accuracy(x, bj)))
+            except Exception as e:  # noqa: BLE001
+                step["err"] = _err(e)
+            f = mk()
+            xf = f.solve(bj)
+            step.update(x_fresh=np.array(xf), acc_fresh=float(f.accuracy(xf, bj)))
+            out.append(step)
+    except Exception as e:  # noqa: BLE001
+        return {"err": _err(e)}
+    Wm = np.eye(b0["m"]) if W is None else np.diag(W)
+    H = A.conj().T @ Wm @ A + (np.diag(D) if b0["ddiag"] else D)
+    return {"steps": out, "H": H, "woodbury": bool(s.woodbury)}
+
+
+def oracle_atadseq(case):
+    im = _impl_atadseq(case)
+    if "err" in im:
+        return {"unexpected_error": im["err"]}
+    cond = float(np.linalg.cond(im["H"]))
+    for j, st in enumerate(im["steps"]):
+        if "err" in st:
+            return {"solve_number": j, "widths_so_far": case["widths"][: j + 1], "error": st["err"], "a_fresh_solver": "returns a solution"}
+        if st["x"].shape != st["b"].shape:
+            return {"solve_number": j, "widths_so_far": case["widths"][: j + 1], "shape_of_x": list(st["x"].shape), "shape_of_b": list(st["b"].shape)}
+        res = _np_relres(im["H"] @ st["x"], st["b"])
+        if not np.all(np.isfinite(st["x"])) or res > 1e-10 * cond * 10:
+            return {"solve_number": j, "widths_so_far": case["widths"][: j + 1], "relative_residual_of_(A^H W A + D) x = b": res,
+                    "with_a_fresh_solver": _np_relres(im["H"] @ st["x_fresh"], st["b"]), "x": tolist(st["x"])}
+        if abs(st["acc"] - res) > 1e-9:
+            return {"solve_number": j, "accuracy_reported": st["acc"], "true_relative_residual": res}
+    return None
+
+
+def run_atadseq(ctx, model, case):
+    im = _impl_atadseq(case)
+    base = case["base"]
+    ctx.count("atadseq:len=%d" % len(case["widths"]))
+    if "err" in im:
+        ctx.case({"kind": "atadseq", "err": im["err"]}, None)
+        ctx.disagree("linsolve.atadseq.error", case, im["err"], "ok", oracle=oracle_atadseq)
+        return
+    ctx.count("atadseq:branch=" + ("woodbury" if im["woodbury"] else "direct"))
+    ctx.count("atadseq:first=" + ("vector" if case["widths"][0] == 0 else "matrix"))
+    ctx.case({"kind": "atadseq", "m": base["m"], "n": base["n"], "widths": case["widths"], "woodbury": im["woodbury"]}, _key(case))
+    kk = 100 * (base["m"] + base["n"]) * (1 + max(case["widths"]))
+    for j, st in enumerate(im["steps"]):
+        bad = None
+        if "err" in st:
+            bad = (f"solve_{j}.error", st["err"], "ok")
+        elif st["x"].shape != st["x_fresh"].shape:
+            bad = (f"solve_{j}.shape", list(st["x"].shape), list(st["x_fresh"].shape))
+        elif not vclose(st["x"], st["x_fresh"], kk, rtol=1e-8):
+            bad = (f"solve_{j}.x-vs-fresh-solver", tolist(st["x"]), tolist(st["x_fresh"]))
+        elif abs(st["acc"] - st["acc_fresh"]) > 1e-9:
+            bad = (f"solve_{j}.accuracy-vs-fresh-solver", st["acc"], st["acc_fresh"])
+        else:
+            # the model (pure function of the current right-hand side): solution and accuracy
+            mc = dict(base, kind="atad", k=st["k"], b=tolist(st["b"]), xp=tolist(st["b"]))
+            mo = _model_atad(model, mc, st["x"])
+            if not vclose(st["x"], mo["x"], kk, rtol=1e-8):
+                bad = (f"solve_{j}.x", tolist(st["x"]), tolist(mo["x"]))
+            elif abs(st["acc"] - mo["acc"]) > 1e-9:
+                bad = (f"solve_{j}.accuracy", st["acc"], mo["acc"])
+        if bad:
+            ctx.disagree("linsolve.atadseq." + bad[0], case, bad[1], bad[2], oracle=oracle_atadseq)
+            return
+
+
+# =============================================================================================
 # ConvATADSolver
 
 
@@ -910,12 +1022,17 @@ def _impl_conv(case):
         x = s.solve(jnp.array(b, dtype=dt))
         acc = float(s.accuracy(x, jnp.array(b, dtype=dt)))
         lhs = np.array(A.gram_op(x) + D(x))
+        # the same instance on a second right-hand side, against a fresh solver (instance reuse, cf. stream atadseq)
+        b2 = jnp.array(np.flip(b, axis=-1) * 0.5 + 1.0, dtype=dt)
+        x2 = np.array(s.solve(b2))
+        x2f = np.array(solver.ConvATADSolver(A, D).solve(b2))
+        lhs2 = np.array(A.gram_op(jnp.array(x2)) + D(jnp.array(x2)))
     except Exception as e:  # noqa: BLE001
         return {"err": _err(e)}
     Ahat = np.broadcast_to(np.array(C.h_dft), ishape)
     Dhat = np.broadcast_to(np.array(D.h_dft), ishape)
     return {"x": np.array(x), "acc": acc, "lhs": lhs, "b": b, "Ahat": Ahat, "Dhat": Dhat, "AHEinv": np.broadcast_to(np.array(s.AHEinv), ishape),
-            "axes": axes, "sum_axis": s.sum_axis}
+            "axes": axes, "sum_axis": s.sum_axis, "x2": x2, "x2_fresh": x2f, "res2": _np_relres(lhs2, np.array(b2))}
 
 
 def oracle_conv(case):
@@ -927,6 +1044,8 @@ def oracle_conv(case):
         return {"relative_residual_of_(A^H A + D) x = b": res}
     if abs(im["acc"] - res) > 1e-9:
         return {"accuracy_reported": im["acc"], "true_relative_residual": res}
+    if not np.all(np.isfinite(im["x2"])) or im["res2"] > 1e-8:
+        return {"second_solve_with_the_same_instance": True, "relative_residual_of_(A^H A + D) x = b": im["res2"]}
     return None
 
 
@@ -966,6 +1085,8 @@ def run_conv(ctx, model, case):
             rr = b2f(model.call("relres", dt="c" if cplx else "r", ax=enc(im["lhs"], cplx), b=enc(im["b"], cplx)))
             if abs(rr - im["acc"]) > 1e-9:
                 bad = ("accuracy", im["acc"], rr)
+            elif not vclose(im["x2"], im["x2_fresh"], kk, rtol=1e-8) or im["res2"] > 1e-8:
+                bad = ("second-solve-vs-fresh-solver", tolist(im["x2"]), tolist(im["x2_fresh"]))
     if bad:
         ctx.disagree("linsolve.conv." + bad[0], case, bad[1], bad[2], oracle=oracle_conv)
 
@@ -1396,14 +1517,14 @@ def oracle_kwhist(case):
 
 # =============================================================================================
 
-RUNNERS = {"kwhist": run_kwhist, "cg": run_cg, "jaxcg": run_jaxcg, "cgscan": run_cgscan, "lstsq": run_lstsq, "atad": run_atad, "atadargs": run_atadargs, "convargs": run_convargs, "conv": run_conv, "relres": run_relres,
+RUNNERS = {"kwhist": run_kwhist, "cg": run_cg, "jaxcg": run_jaxcg, "cgscan": run_cgscan, "lstsq": run_lstsq, "atad": run_atad, "atadseq": run_atadseq, "atadargs": run_atadargs, "convargs": run_convargs, "conv": run_conv, "relres": run_relres,
            "bisect": run_bisect, "golden": run_golden}
-GENS = {"kwhist": gen_kwhist, "cg": gen_cg, "jaxcg": gen_jaxcg, "cgscan": gen_cgscan, "lstsq": gen_lstsq, "atad": gen_atad, "atadargs": gen_atadargs, "convargs": gen_convargs, "conv": gen_conv, "relres": gen_relres,
+GENS = {"kwhist": gen_kwhist, "cg": gen_cg, "jaxcg": gen_jaxcg, "cgscan": gen_cgscan, "lstsq": gen_lstsq, "atad": gen_atad, "atadseq": gen_atadseq, "atadargs": gen_atadargs, "convargs": gen_convargs, "conv": gen_conv, "relres": gen_relres,
         "bisect": gen_bisect, "golden": gen_golden}
-ORACLES = {"kwhist": oracle_kwhist, "cg": oracle_cg, "jaxcg": oracle_jaxcg, "cgscan": oracle_cgscan, "lstsq": oracle_lstsq, "atad": oracle_atad, "conv": oracle_conv,
+ORACLES = {"kwhist": oracle_kwhist, "cg": oracle_cg, "jaxcg": oracle_jaxcg, "cgscan": oracle_cgscan, "lstsq": oracle_lstsq, "atad": oracle_atad, "atadseq": oracle_atadseq, "conv": oracle_conv,
            "bisect": oracle_bisect, "golden": oracle_golden}
 # (quick, thorough) number of generated cases per stream
-BUDGET = {"kwhist": (8, 60), "cg": (120, 1500), "jaxcg": (40, 400), "cgscan": (25, 250), "lstsq": (30, 300), "atad": (90, 1000), "atadargs": (20, 60), "convargs": (10, 30), "conv": (40, 400), "relres": (30, 200),
+BUDGET = {"kwhist": (8, 60), "cg": (120, 1500), "jaxcg": (40, 400), "cgscan": (25, 250), "lstsq": (30, 300), "atad": (90, 1000), "atadseq": (24, 200), "atadargs": (20, 60), "convargs": (10, 30), "conv": (40, 400), "relres": (30, 200),
           "bisect": (60, 700), "golden": (50, 600)}
 
 
